@@ -8,7 +8,8 @@ NAME_POOL = [
     "cafe\u0301", "\u212bngstrom", "\U00020bb7\u91ce", "{x}", "{}", "a}b", "{0}",       # non-NFC, non-BMP; braces (str.format syntax)
 ]
 SAFE_NAME_POOL = ["ophelia", "claudius", "x", "dagger", "oph-elia", "a.b", "c+d", "a-b", "yorick", "skull", "b", "node1",
-                  "cafe\u0301", "Laertes", "\U00020bb7\u91ce"]
+                  "cafe\u0301", "Laertes", "\U00020bb7\u91ce",
+                  "--start--", "x--start--"]        # (text that looks like an internal marker is still a name)
 JUNK_SEGMENTS = ["", " ", "junk", "JUNK", "v1", "v0001", "sq1", "sh10", "hamlet ", " hamlet", "Hamlet", "hamle", "hamlett",
                  "a ", "as", "а", "w p", "wp", "ma.", ".ma", "m", "**", "*,*", "<", ">>", "*x", "x*", "a,s", "ma,mb",
                  "\t", "\n", "a\n", "\nhamlet", "ham\0let", "x" * 300, "v١٢٣", "{project}", "(a)", "a|s", ".*", "[^/]*",
